@@ -519,7 +519,70 @@ fn fs(f: &str) -> &'static str {
 
 /// Metadata clauses of C18: length / mtime frozen at construction, ETag syntax, stability and
 /// sensitivity, refusal of non-regular files.
+/// ETag as a function of (identity, length, modification time): one file (one inode) is taken
+/// through 3-5 states whose lengths, seconds and nanoseconds all come from ONE small pool, so
+/// that fields trade values, repeat each other, or differ in a single field. Equal states must
+/// give equal tags, different states different tags - whatever the way the tag is built.
+fn run_etag_matrix(ctx: &mut Ctx) -> Result<RunOut, Violation> {
+    let t = &mut ctx.tape;
+    let pool: [u64; 8] = [0, 1, 4096, 8192, 65_536, 200_001, 1_000_000, 999_999_999];
+    let mut pick = |t: &mut Tape| if t.chance(1, 6) { crate::dict::pick_in(t.draw(1 << 16), 0, 999_999_999).unwrap_or(4096) } else { pool[t.draw(8) as usize] };
+    let n = 3 + t.draw(3) as usize;
+    let mut states: Vec<(u64, u64, u32)> = Vec::new(); // (len, secs, nanos)
+    for _ in 0..n {
+        let len = pick(t).min(1_000_000);
+        let secs = 1_000_000_000 + pick(t);
+        let nanos = pick(t).min(999_999_999) as u32;
+        states.push((len, secs, nanos));
+    }
+    if t.chance(1, 2) && n >= 2 {
+        // a state whose length and nanoseconds are those of another state, traded
+        let (l, s, ns) = states[0];
+        states[1] = ((ns as u64).min(1_000_000), s, l.min(999_999_999) as u32);
+    }
+    let dir = scratch_dir();
+    let path = dir.join("e");
+    let _ = std::fs::remove_file(&path);
+    let f = write_file(&path, 1, 0);
+    let mut tags: Vec<Vec<u8>> = Vec::new();
+    for (len, secs, nanos) in &states {
+        f.set_len(*len).expect("set_len");
+        f.set_modified(std::time::UNIX_EPOCH + std::time::Duration::new(*secs, *nanos)).expect("set mtime");
+        let c = match Crf::new(File::open(&path).expect("open"), HeaderMap::new()) {
+            Ok(c) => c,
+            Err(e) => return violation("C18", "regular-file-refused", e.to_string()),
+        };
+        let Some(e) = c.etag() else { return violation("C18", "no-etag", "etag() is None".into()) };
+        if !etag_ok(e.as_bytes()) {
+            return violation("C18", "etag-syntax", format!("{e:?} is not a valid strong entity-tag"));
+        }
+        tags.push(e.as_bytes().to_vec());
+    }
+    ctx.ev("etag-matrix", n as u64, states.iter().fold(0u64, |a, s| mix(a, s.0 ^ s.1 << 20 ^ (s.2 as u64) << 40)));
+    for i in 0..n {
+        for j in i + 1..n {
+            let same_state = states[i] == states[j];
+            let same_tag = tags[i] == tags[j];
+            if same_state && !same_tag {
+                return violation("C18", "etag-unstable", format!("the same file state {:?} gave {:?} and then {:?}", states[i], String::from_utf8_lossy(&tags[i]), String::from_utf8_lossy(&tags[j])));
+            }
+            if !same_state && same_tag {
+                return violation("C18", "etag-collision", format!("one file in two states (len, mtime secs, mtime nanos) = {:?} and {:?} has the same ETag {:?}", states[i], states[j], String::from_utf8_lossy(&tags[i])));
+            }
+        }
+    }
+    ctx.stats.bump("c18_etag_state_matrices");
+    ctx.stats.grid.insert("metadata|etag-state-matrix".to_string());
+    if ctx.wants_sample() {
+        ctx.sample = Some(json!({"metadata_scenario": "etag-state-matrix", "states": format!("{states:?}")}));
+    }
+    Ok(RunOut { sig: mix(0xE7A6, n as u64 ^ states[0].0.min(7) << 8), nontrivial: true })
+}
+
 fn run_metadata(ctx: &mut Ctx) -> Result<RunOut, Violation> {
+    if ctx.tape.chance(1, 4) {
+        return run_etag_matrix(ctx);
+    }
     let t = &mut ctx.tape;
     let len = gen_size(t).min(70_000);
     let seed = t.draw(u32::MAX) as u64;
